@@ -60,6 +60,8 @@ func New(config ...Config) fiber.Handler {
 	trustedSubOrigins := []subdomain{}
 
 	for _, origin := range cfg.TrustedOrigins {
+		// blanks around an entry (a list split at commas) do not belong to it
+		origin = utils.Trim(origin, ' ')
 		if i := strings.Index(origin, "://*."); i != -1 {
 			trimmedOrigin := utils.Trim(origin[:i+3]+origin[i+4:], ' ')
 			isValid, normalizedOrigin := normalizeOrigin(trimmedOrigin)
